@@ -262,18 +262,21 @@ type SexpArray struct {
 }
 
 func (r *SexpArray) Type() *RegisteredType {
-	if r.Typ == nil {
-		if len(r.Val) > 0 {
-			// take type from first element
-			ty := r.Val[0].Type()
-			if ty != nil {
-				r.Typ = GoStructRegistry.GetOrCreateSliceType(ty)
-			}
-		} else {
-			// empty array
-			r.Typ = GoStructRegistry.Lookup("[]")
-			//P("lookup [] returned type %#v", r.Typ)
+	if len(r.Val) > 0 {
+		// take type from first element, every time: rest, slice,
+		// append, map and keys hand the Typ of their source (or an
+		// element type) to the array they build, and aset replaces
+		// elements in place, so a remembered Typ may describe
+		// contents this array does not have.
+		r.Typ = nil
+		ty := r.Val[0].Type()
+		if ty != nil {
+			r.Typ = GoStructRegistry.GetOrCreateSliceType(ty)
 		}
+	} else if r.Typ == nil {
+		// empty array
+		r.Typ = GoStructRegistry.Lookup("[]")
+		//P("lookup [] returned type %#v", r.Typ)
 	}
 	return r.Typ
 }
